@@ -340,6 +340,8 @@ def gen_spec(rng, pid):
     d = dict(profile=profile, clients=clients, server=server, eager=eager)
     if pid in ('C03', 'C04', 'C11') and rng.random() < 0.2:
         d['app'] = 'reenter'
+        if pid == 'C04':        # application errbacks that raise, visited before / after the reply listener
+            d['app'] = rng.choice(['reenter', 'raise_first', 'raise_first', 'raise_last'])
     if profile == 'huawei' and rng.random() < 0.6:
         d['nulpad'] = True          # NUL-padded messages, which this profile repairs
     if rng.random() < 0.3:
